@@ -17,6 +17,10 @@ def _parse_sync(lines, res=192):
     line means in the sync section must not depend on where else, or when, the same text was seen."""
     foreign = lines[2:][:: max(1, len(lines) // 5)][:6]
     _calls[0] += 1
+    if _FORCED_KIND[0] is not None:
+        from chartgen import entry_point
+        with entry_point(_FORCED_KIND[0]):
+            return outcome(chart_text(res=res, sync=lines, events=foreign[:3], tracks={"HardDrums": foreign}))
     if _calls[0] % 5 == 0:
         from chartgen import ITERABLE_KINDS, entry_point
         with entry_point(ITERABLE_KINDS[(_calls[0] // 5) % len(ITERABLE_KINDS)]):  # the section-level entry points, other iterables
@@ -25,6 +29,7 @@ def _parse_sync(lines, res=192):
 
 
 _calls = [0]
+_FORCED_KIND = [None]
 
 
 def _observe_batch(items, recs, ctx, top=True):
@@ -155,6 +160,24 @@ def run(ctx):
             _flush(ctx, recs)
             chunk_recs_total += len(recs)
             recs = []
+    # ---- one mixed section (tempo, time-signature and anchor lines) through EVERY kind of entry point and iterable
+    from chartgen import ITERABLE_KINDS
+    for how in ITERABLE_KINDS:
+        items, t = [], 0
+        for j in range(36):
+            t += r.choice([1, 2, 50])
+            kind = ["B", "TS", "A"][j % 3]
+            if kind == "B":
+                items.append(_mk(f"K{how}-{j}", "B", str(t), n=str(r.choice([60000, 120500, 999, r.randrange(1, 10**6)]))))
+            elif kind == "TS":
+                items.append(_mk(f"K{how}-{j}", "TS", str(t), u=str(r.randrange(1, 33)), l=r.choice([None, 1, 2, 3])))
+            else:
+                items.append(_mk(f"K{how}-{j}", "A", str(t), us=str(r.randrange(0, 10**9))))
+        _FORCED_KIND[0] = how
+        try:
+            _observe_batch(items, recs, ctx)
+        finally:
+            _FORCED_KIND[0] = None
     # ---- time signatures
     items = []
     t = 0
